@@ -251,7 +251,8 @@ PROPS = {
         'level': 'other',
         'trusted_base': COMMON_TB,
         'assumptions': [
-            'BOUNDED + ASSUMED at call sites: bitcoin.segwit_addr.decode/encode equal the BIP173 reference written in specs/addr.py (400 generated addresses per run: valid, cross-prefix, other witness versions, 1-4 substitutions, mixed case, random)',
+            'PROVED (no longer assumed): bitcoin.segwit_addr.decode accepts exactly the strings satisfying the BIP173 predicate segwit_ok of specs/bech32.py and returns their version and program; the proof goes through the C11 contracts of bech32_decode, bech32_verify_checksum, bech32_polymod and the strict 5->8 regrouping, which are re-verified inside this check. The predicate itself is compared with the independent executable decoder of specs/addr.py on 400 generated addresses per run (BOUNDED).',
+            'BOUNDED + ASSUMED at call sites: bitcoin.segwit_addr.encode of a version-0 program equals the reference encoder (rests on the assumed 8->5 regrouping contract of C11)',
             'BOUNDED: text round trip CBitcoinAddress(str(a)) and refusal of foreign/mutated text, 300 inputs per chain (rests on the bounded base58/bech32 codecs of C10/C11)',
             'bytes(list) of the decoded program: elements are assumed in 0..255 (guaranteed by the decoder contract)',
             'chain tables (version bytes, prefixes) in specs/addr.py are taken from the property text',
@@ -262,7 +263,7 @@ PROPS = {
                       'class with the decoded payload or raises CBitcoinAddressError and nothing else (every string); '
                       'from_scriptPubKey of the four templates yields the prescribed class, version/witness version and payload; '
                       'to_scriptPubKey rebuilds exactly the template script; from_bytes / from_pubkey without an explicit version take the prefix of the chain selected at call time; <33-byte key> CHECKSIG converts to HASH160(key). Bounded: the text codecs and text round trips. KNOWN FINDING (not repairable without editing a test): the bare UNCOMPRESSED pubkey branch hashes 64 of the 65 key bytes.',
-        'level_note': 'trusted: pyvc, z3/cvc5, assumed codec contracts (bounded-checked), specs/addr.py',
+        'level_note': 'trusted: pyvc, z3/cvc5, assumed base58 and segwit-encode codec contracts (bounded-checked), specs/addr.py, specs/bech32.py',
         'design_ref': 'DESIGN.md 5 C12',
         'explanation': 'address contracts',
     },
